@@ -272,6 +272,15 @@ class Builder:
                         ph.succ["ok"] = ph  # never entered: the value node branches directly
                         memo[key] = ph
                         return ph
+                if o.startswith("(discriminant") and "upgrade(" in o and "ptr_eq" not in o and "::load(" not in o:
+                    # the result of an earlier upgrade, kept in a local and tested again (the value
+                    # is a per-thread register written by the upgrade node)
+                    vals = dict(tg)
+                    n = self.new("up_test", src=src)
+                    memo[key] = n
+                    n.succ["dead"] = at(vals.get(0, other))
+                    n.succ["alive"] = at(vals.get(1, other))
+                    return n
                 cs = classify_switch(fn, t, pending)
                 if cs and cs[0] == "assume":
                     self.assumptions.add(cs[2])
@@ -586,6 +595,7 @@ class Smt:
                 L.append("(declare-const pc%d_%d (_ BitVec %d))" % (t, k, PCW))
                 L.append("(declare-const it%d_%d (_ BitVec %d))" % (t, k, ITW))
                 L.append("(declare-const polls%d_%d (_ BitVec %d))" % (t, k, PLW))
+                L.append("(declare-const up%d_%d Bool)" % (t, k))
             for i in range(self.n):
                 L.append("(declare-const paused%d_%d Bool)" % (i, k))
                 L.append("(declare-const state%d_%d (_ BitVec 2))" % (i, k))
@@ -600,7 +610,7 @@ class Smt:
     def all_vars(self):
         vs = []
         for t in range(self.T):
-            vs += ["pc%d" % t, "it%d" % t, "polls%d" % t]
+            vs += ["pc%d" % t, "it%d" % t, "polls%d" % t, "up%d" % t]
         for i in range(self.n):
             vs += ["paused%d" % i, "state%d" % i, "ctx%d" % i, "tok%d" % i]
         vs += ["reglock", "heaplock"]
@@ -612,11 +622,13 @@ class Smt:
             L.append("(assert (= pc%d_0 %s))" % (t, bv(p.entry.id, PCW)))
             L.append("(assert (= it%d_0 %s))" % (t, bv(0, ITW)))
             L.append("(assert (= polls%d_0 %s))" % (t, bv(0, PLW)))
+            L.append("(assert (not up%d_0))" % t)
         for i in range(self.n):
             L.append("(assert (not paused%d_0))" % i)
             L.append("(assert (= state%d_0 %s))" % (i, bv(0, 2)))
             L.append("(assert (not ctx%d_0))" % i)
-            L.append("(assert (not tok%d_0))" % i)
+            # tok_i_0 is left free: a thread may start with a stale unpark token (resume_threads
+            # unparks every registered thread, parked or not)
         L.append("(assert (= reglock_0 %s))" % bv(FREE, LKW))
         L.append("(assert (= heaplock_0 %s))" % bv(FREE, LKW))
 
@@ -654,8 +666,11 @@ class Smt:
         elif k == "upgrade":
             for i in range(self.n):
                 fin = "(or (= pc%d_K %s) (= pc%d_K %s))" % (i, bv(self.progs[i].done.id, PCW), i, bv(self.progs[i].err.id, PCW))
-                out.append(("(and (= it%d_K %s) %s)" % (t, bv(i + 1, ITW), fin), {}, go("dead"), "upgrade[%d]:dead" % i))
-                out.append(("(and (= it%d_K %s) (not %s))" % (t, bv(i + 1, ITW), fin), {}, go("alive"), "upgrade[%d]:alive" % i))
+                out.append(("(and (= it%d_K %s) %s)" % (t, bv(i + 1, ITW), fin), {"up%d" % t: "false"}, go("dead"), "upgrade[%d]:dead" % i))
+                out.append(("(and (= it%d_K %s) (not %s))" % (t, bv(i + 1, ITW), fin), {"up%d" % t: "true"}, go("alive"), "upgrade[%d]:alive" % i))
+        elif k == "up_test":
+            out.append(("up%d_K" % t, {}, go("alive"), "kept upgrade result: alive"))
+            out.append(("(not up%d_K)" % t, {}, go("dead"), "kept upgrade result: dead"))
         elif k == "same":
             out.append(("(= it%d_K %s)" % (t, bv(t + 1, ITW)), {}, go("same"), "same"))
             out.append(("(not (= it%d_K %s))" % (t, bv(t + 1, ITW)), {}, go("diff"), "diff"))
